@@ -1,5 +1,6 @@
 import JominiModel.Proofs.Date
 import JominiModel.Proofs.DateFast
+import JominiModel.Proofs.DateFmt
 import JominiModel.Generated.Tables
 /-
 C13 — Date codecs are mutually inverse and date arithmetic is consistent.
@@ -136,5 +137,84 @@ theorem C13_fastpaths_agree (s : Bytes) :
 
 example : Date.earlyReject [49, 52, 52, 52, 46, 49, 49, 46, 49, 49] = false ∧
     Date.parse [49, 52, 52, 52, 46, 49, 49, 46, 49, 49] = .ok (mkDate 1444 11 11) := by decide
+
+/-! ### format → parse -/
+
+/-- **format → parse, Date** (both the short game format `Y.M.D` that `Date::game_fmt` writes and
+the zero padded `Y.MM.DD`): the text parses back to the same date — through whichever of the
+fast paths the text happens to hit. -/
+theorem C13_fmt_parse_date (wide : Bool) (y : Int) (m d : Nat) (hy : inI16 y = true) (hv : ValidMd m d) :
+    ∃ txt, format (mkDate y m d).raw (if wide then .dotWide else .dotShort) = .ok txt ∧
+      Date.parse txt = .ok (mkDate y m d) := by
+  have hl := validMd_lt hv
+  refine ⟨_, format_dot wide y m d 0 hl.1 hl.2 (by omega), ?_⟩
+  have hw : (if wide then 2 else 0) = 0 ∨ (if wide then 2 else 0) = 2 := by cases wide <;> simp
+  rw [Date.parse_eq, earlyReject_dotText _ hw y m d hy (by omega) (by omega)]
+  simp only [Bool.false_eq_true, if_false, Date.fallback,
+    Expanded.parse_dotText _ hw y m d 0 hy (by omega) (by omega) (by omega), Out.bind_ok, Date.fromExpanded]
+  simp [Date.fromYmdOpt_eq, hv]
+
+theorem C13_fmt_parse_date_game (y : Int) (m d : Nat) (hy : inI16 y = true) (hv : ValidMd m d) :
+    ∃ txt, (mkDate y m d).gameFmt = .ok txt ∧ Date.parse txt = .ok (mkDate y m d) :=
+  C13_fmt_parse_date false y m d hy hv
+
+/-- **format → parse, DateHour** (hours 1–24, short and zero padded form; the zero padded hour
+`01`–`09` parses since /repo 22c32b0). -/
+theorem C13_fmt_parse_datehour (wide : Bool) (y : Int) (m d h : Nat) (hy : inI16 y = true) (hv : ValidMd m d)
+    (hh : ValidHour h) :
+    ∃ txt, format (mkDateHour y m d h).raw (if wide then .dotWide else .dotShort) = .ok txt ∧
+      DateHour.parse txt = .ok (mkDateHour y m d h) := by
+  have hl := validMd_lt hv
+  have hh' : h < 32 := by unfold ValidHour at hh; omega
+  refine ⟨_, format_dot wide y m d h hl.1 hl.2 hh', ?_⟩
+  have hw : (if wide then 2 else 0) = 0 ∨ (if wide then 2 else 0) = 2 := by cases wide <;> simp
+  simp only [DateHour.parse,
+    Expanded.parse_dotText _ hw y m d h hy (by omega) (by omega) (by omega), Out.bind_ok, DateHour.fromExpanded]
+  simp [DateHour.fromYmdhOpt_eq, hv, hh]
+
+/-- **format → parse, UniformDate** (its game format is the zero padded one). -/
+theorem C13_fmt_parse_uniform (y : Int) (m d : Nat) (hy : inI16 y = true) (hv : ValidUniformMd m d) :
+    ∃ txt, (mkUniform y m d).gameFmt = .ok txt ∧ UniformDate.parse txt = .ok (mkUniform y m d) := by
+  have hm : m < 16 := by unfold ValidUniformMd at hv; omega
+  have hd : d < 32 := by unfold ValidUniformMd at hv; omega
+  have hf : (mkUniform y m d).gameFmt = .ok (dotText 2 y m d 0) := format_dot true y m d 0 hm hd (by omega)
+  refine ⟨_, hf, ?_⟩
+  simp only [UniformDate.parse,
+    Expanded.parse_dotText 2 (Or.inr rfl) y m d 0 hy (by omega) (by omega) (by omega), Out.bind_ok, UniformDate.fromExpanded]
+  simp [UniformDate.fromYmdOpt_eq, hv]
+
+/-- **format → parse, RawDate** (any month 1–12, day 1–31, hour absent or 1–24). -/
+theorem C13_fmt_parse_raw (wide : Bool) (y : Int) (m d h : Nat) (hy : inI16 y = true) (hv : ValidRaw m d h) :
+    ∃ txt, format (mkRaw y m d h) (if wide then .dotWide else .dotShort) = .ok txt ∧
+      RawDate.parse txt = .ok (mkRaw y m d h) := by
+  have hv' := hv
+  unfold ValidRaw at hv'
+  refine ⟨_, format_dot wide y m d h (by omega) (by omega) (by omega), ?_⟩
+  have hw : (if wide then 2 else 0) = 0 ∨ (if wide then 2 else 0) = 2 := by cases wide <;> simp
+  obtain ⟨tl, ht⟩ := toI64T_dotText _ hw y m d h hy (by omega) (by omega) (by omega)
+  simp only [RawDate.parse, ht,
+    Expanded.parse_dotText _ hw y m d h hy (by omega) (by omega) (by omega), Out.bind_ok, RawDate.fromExpanded]
+  simp [RawDate.fromYmdhOpt_eq, hv]
+
+
+example : ∃ txt, (mkDate (-17) 1 1).gameFmt = .ok txt ∧ Date.parse txt = .ok (mkDate (-17) 1 1) :=
+  C13_fmt_parse_date_game (-17) 1 1 (by decide) (by decide)
+
+/-- **ISO-8601 rendering shows the same components**, the hour as 0–23: the text is
+`{:04}-{:02}-{:02}` plus `T{:02}` of `hour − 1`; it never panics; every field reads back as the
+component (two digits for month, day and hour; optional '-' and digits for the year). -/
+theorem C13_iso (y : Int) (m d h : Nat) (hy : inI16 y = true) (hv : ValidRaw m d h) :
+    format (mkRaw y m d h) .iso8601 = .ok (isoText y m d h) ∧
+    Num12 (fmtInt 2 (m : Int)) m ∧ Num12 (fmtInt 2 (d : Int)) d ∧
+    (h ≠ 0 → Num12 (fmtInt 2 ((h - 1 : Nat) : Int)) (h - 1) ∧ h - 1 ≤ 23) ∧
+    (∃ ds, allDigits ds = true ∧ decVal ds = y.natAbs ∧ fmtInt 4 y = (if y < 0 then [45] else []) ++ ds) := by
+  have hv' := hv
+  unfold ValidRaw at hv'
+  refine ⟨format_iso y m d h (by omega) (by omega) (by omega), fmtInt_small 2 (Or.inr rfl) m (by omega),
+    fmtInt_small 2 (Or.inr rfl) d (by omega), ?_, fmtInt4_year y hy⟩
+  intro h0
+  exact ⟨fmtInt_small 2 (Or.inr rfl) (h - 1) (by omega), by omega⟩
+
+example : format (mkRaw 1936 1 1 24) .iso8601 = .ok [49, 57, 51, 54, 45, 48, 49, 45, 48, 49, 84, 50, 51] := by decide
 
 end Jomini.Props.C13
